@@ -20,6 +20,9 @@ func (m *Machine) unop(fr *frame, instr *ssa.UnOp, x Value) Value {
 		if p == nil {
 			panic(targetPanic{msg: "invalid memory address or nil pointer dereference", pos: m.posString(instr.Pos())})
 		}
+		if m.race.on {
+			m.raceLoad(fr, instr.X, p, accessPos(instr.Pos(), instr.X))
+		}
 		return copyVal(*p)
 	case token.ARROW:
 		v, ok := m.chanRecv(fr, x.(*Chan), instr.Pos())
@@ -897,6 +900,13 @@ func (m *Machine) chanTake(ch *Chan) (Value, bool) {
 	if len(ch.Buf) > 0 {
 		v := ch.Buf[0]
 		ch.Buf = ch.Buf[1:]
+		if m.race.on {
+			if len(ch.vcs) > 0 {
+				m.hbAcquireVC(ch.vcs[0])
+				ch.vcs = ch.vcs[1:]
+			}
+			ch.recvVCs = append(ch.recvVCs, m.hbNow())
+		}
 		ch.notifySelects()
 		return v, true
 	}
@@ -904,9 +914,26 @@ func (m *Machine) chanTake(ch *Chan) (Value, bool) {
 		s := ch.sendq[0]
 		ch.sendq = ch.sendq[1:]
 		s.taken = true
+		if m.race.on {
+			m.hbAcquireVC(s.vc)
+			s.rvc = m.hbNow()
+		}
 		return s.v, true
 	}
+	m.hbAcquireVC(ch.closeVC)
 	return m.zero(ch.ElemT), false
+}
+
+// hbBufSend: the clocks of a completed send on a buffered channel.
+func (m *Machine) hbBufSend(ch *Chan) {
+	if !m.race.on {
+		return
+	}
+	if k := ch.nsent - ch.Cap; k >= 0 && k < len(ch.recvVCs) {
+		m.hbAcquireVC(ch.recvVCs[k])
+	}
+	ch.nsent++
+	ch.vcs = append(ch.vcs, m.hbNow())
 }
 
 func (m *Machine) chanSend(fr *frame, ch *Chan, v Value, pos token.Pos) {
@@ -925,16 +952,18 @@ func (m *Machine) chanSend(fr *frame, ch *Chan, v Value, pos token.Pos) {
 			}
 		}
 		ch.Buf = append(ch.Buf, copyVal(v))
+		m.hbBufSend(ch)
 		ch.notifySelects()
 		m.syncAfter(fr)
 		return
 	}
-	s := &chanSend{v: copyVal(v), th: m.cur}
+	s := &chanSend{v: copyVal(v), th: m.cur, vc: m.hbNow()}
 	ch.sendq = append(ch.sendq, s)
 	m.block(func() bool { return s.taken || ch.Closed }, fmt.Sprintf("chan send (unbuffered chan #%d)", ch.ID))
 	if !s.taken {
 		panic(targetPanic{msg: "send on closed channel", pos: m.posString(pos)})
 	}
+	m.hbAcquireVC(s.rvc)
 }
 
 func (m *Machine) chanClose(fr *frame, ch *Chan, pos token.Pos) {
@@ -946,6 +975,7 @@ func (m *Machine) chanClose(fr *frame, ch *Chan, pos token.Pos) {
 		panic(targetPanic{msg: "close of closed channel", pos: m.posString(pos)})
 	}
 	ch.Closed = true
+	ch.closeVC = m.hbNow()
 	ch.notifySelects()
 	m.syncAfter(fr)
 }
@@ -1045,6 +1075,7 @@ func (m *Machine) selectInstr(fr *frame, instr *ssa.Select) Value {
 					panic(m.unsupported("select send on unbuffered channel"))
 				}
 				s.ch.Buf = append(s.ch.Buf, copyVal(s.send))
+				m.hbBufSend(s.ch)
 			}
 			continue
 		}
@@ -1076,6 +1107,9 @@ func (m *Machine) callBuiltin(caller *frame, pos token.Pos, fn *ssa.Builtin, arg
 		case *Map:
 			if x == nil {
 				return m.bv64(0)
+			}
+			if m.race.on {
+				m.raceMapRead(caller, x, pos)
 			}
 			return m.bv64(len(x.Entries))
 		case *Chan:
@@ -1118,6 +1152,32 @@ func (m *Machine) callBuiltin(caller *frame, pos token.Pos, fn *ssa.Builtin, arg
 			for i := range y.A {
 				add[i] = copyVal(y.A[i])
 			}
+			if m.race.on && m.raceActive(caller) {
+				// element reads of the source; element writes when appending in place
+				// (both the cells as they were and as they are afterwards: a struct
+				// element is replaced as a whole)
+				for i := range y.A {
+					raceCells(&y.A[i], func(c *Value) { m.raceRead(caller, c, pos) }, 0)
+				}
+				inPlace := len(x.A)+len(add) <= cap(x.A)
+				if inPlace {
+					full := x.A[:cap(x.A)]
+					for i := range add {
+						raceCells(&full[len(x.A)+i], func(c *Value) { m.raceWrite(caller, c, pos) }, 0)
+					}
+				} else {
+					for i := range x.A {
+						raceCells(&x.A[i], func(c *Value) { m.raceRead(caller, c, pos) }, 0)
+					}
+				}
+				r := append(x.A, add...)
+				if inPlace {
+					for i := range add {
+						raceCells(&r[len(x.A)+i], func(c *Value) { m.raceWrite(caller, c, pos) }, 0)
+					}
+				}
+				return Slice{A: r}
+			}
 			return Slice{A: append(x.A, add...)}
 		}
 	case "copy":
@@ -1132,13 +1192,27 @@ func (m *Machine) callBuiltin(caller *frame, pos token.Pos, fn *ssa.Builtin, arg
 			for i := 0; i < n; i++ {
 				tmp[i] = copyVal(s.A[i])
 			}
+			if m.race.on && m.raceActive(caller) {
+				for i := 0; i < n; i++ {
+					raceCells(&s.A[i], func(c *Value) { m.raceRead(caller, c, pos) }, 0)
+					raceCells(&d.A[i], func(c *Value) { m.raceWrite(caller, c, pos) }, 0)
+				}
+			}
 			copy(d.A, tmp)
+			if m.race.on && m.raceActive(caller) {
+				for i := 0; i < n; i++ {
+					raceCells(&d.A[i], func(c *Value) { m.raceWrite(caller, c, pos) }, 0)
+				}
+			}
 			return m.bv64(n)
 		}
 	case "close":
 		m.chanClose(caller, args[0].(*Chan), pos)
 		return nil
 	case "delete":
+		if m.race.on {
+			m.raceMapWrite(caller, args[0].(*Map), pos)
+		}
 		m.mapDelete(args[0].(*Map), args[1])
 		return nil
 	case "print", "println":
